@@ -399,3 +399,137 @@ func SmallBlobs(n int) []LinBlob {
 	}
 	return out
 }
+
+// ---------- one operation with a failing lower-layer call (C13) ----------
+
+// FaultStep performs one operation on st while the k-th call into the lower layers fails (arm
+// installs the fault, disarm removes it), then checks that nothing but that call was affected:
+// other blobs read as before, the operation's blob is in its old or its new state (the new one
+// if the call reported success) consistently for fetch, stat and enumerate, and the store keeps
+// working afterwards.
+func FaultStep(st LinStorage, blobs []LinBlob, have uint, arm, disarm func()) {
+	ctx := context.Background()
+	kind := vrt.Choice(LinOps)
+	i := vrt.Choice(len(blobs))
+	bit := uint(1) << uint(i)
+	arm()
+	var err error
+	post := have
+	switch kind {
+	case LinReceive:
+		var sb blob.SizedRef
+		sb, err = st.ReceiveBlob(ctx, blobs[i].Ref, &strReader{s: blobs[i].Data})
+		if err == nil {
+			vrt.Assert(int(sb.Size) == len(blobs[i].Data), "an acknowledged receive reports the true size")
+		}
+		post |= bit
+	case LinFetch:
+		var rc io.ReadCloser
+		rc, _, err = st.Fetch(ctx, blobs[i].Ref)
+		if err == nil {
+			data, rerr := io.ReadAll(rc)
+			rc.Close()
+			vrt.Assert(have&bit != 0, "a fetch under fault does not invent a blob")
+			if rerr == nil {
+				vrt.Assert(string(data) == blobs[i].Data, "a fetch that succeeds under fault returns the blob's bytes")
+			}
+		}
+	case LinStat:
+		err = st.StatBlobs(ctx, []blob.Ref{blobs[i].Ref}, func(sb blob.SizedRef) error {
+			vrt.Assert(sb.Ref == blobs[i].Ref && have&bit != 0 && int(sb.Size) == len(blobs[i].Data), "a stat under fault reports only true facts")
+			return nil
+		})
+	case LinEnumerate:
+		ch := make(chan blob.SizedRef, len(blobs)+2)
+		err = st.EnumerateBlobs(ctx, ch, "", len(blobs)+1)
+		for sb := range ch {
+			hit := false
+			for j := range blobs {
+				if blobs[j].Ref == sb.Ref {
+					hit = true
+					vrt.Assert(have&(1<<uint(j)) != 0 && int(sb.Size) == len(blobs[j].Data), "an enumeration under fault lists only true facts")
+				}
+			}
+			vrt.Assert(hit, "an enumeration under fault lists only blobs of the store")
+		}
+	case LinRemove:
+		err = st.RemoveBlobs(ctx, []blob.Ref{blobs[i].Ref})
+		post &^= bit
+	}
+	disarm()
+	if err != nil {
+		vrt.Cover("failed")
+	}
+	// what is visible now
+	var now uint
+	for j := range blobs {
+		j := j
+		serr := st.StatBlobs(ctx, []blob.Ref{blobs[j].Ref}, func(sb blob.SizedRef) error {
+			now |= 1 << uint(j)
+			vrt.Assert(int(sb.Size) == len(blobs[j].Data), "afterwards stat reports true sizes")
+			return nil
+		})
+		vrt.Assert(serr == nil, "no sticky error: stat works after the failed call")
+		rc, _, ferr := st.Fetch(ctx, blobs[j].Ref)
+		if now&(1<<uint(j)) != 0 {
+			vrt.Assert(ferr == nil, "afterwards what is stat-able is fetchable")
+			if ferr == nil {
+				data, rerr := io.ReadAll(rc)
+				rc.Close()
+				vrt.Assert(rerr == nil && string(data) == blobs[j].Data, "afterwards every visible blob has its bytes")
+			}
+		} else {
+			vrt.Assert(ferr == os.ErrNotExist, "afterwards what is not stat-able is not fetchable")
+		}
+	}
+	vrt.Assert(now&^bit == have&^bit, "blobs the call did not name are unaffected")
+	if err == nil {
+		vrt.Assert(now == post, "a call that reported success took effect")
+	} else {
+		vrt.Assert(now == have || now == post, "a failed call leaves its blob in the old or the new state")
+	}
+	ch := make(chan blob.SizedRef, len(blobs)+2)
+	eerr := st.EnumerateBlobs(ctx, ch, "", len(blobs)+1)
+	vrt.Assert(eerr == nil, "no sticky error: enumerate works after the failed call")
+	var listed uint
+	for sb := range ch {
+		for j := range blobs {
+			if blobs[j].Ref == sb.Ref {
+				listed |= 1 << uint(j)
+			}
+		}
+	}
+	vrt.Assert(listed == now, "afterwards enumerate agrees with stat")
+	// the store keeps working
+	_, rerr := st.ReceiveBlob(ctx, blobs[i].Ref, &strReader{s: blobs[i].Data})
+	vrt.Assert(rerr == nil, "no sticky error: a healthy receive succeeds after the failed call")
+	rc, _, ferr := st.Fetch(ctx, blobs[i].Ref)
+	vrt.Assert(ferr == nil, "a blob received after the failed call is fetchable")
+	if ferr == nil {
+		data, _ := io.ReadAll(rc)
+		rc.Close()
+		vrt.Assert(string(data) == blobs[i].Data, "a blob received after the failed call has its bytes")
+	}
+}
+
+// SharedFault makes the k-th call (k in 0..n-1, or none) into any of the given model stores and
+// KVs fail; it returns arm and disarm functions.
+func SharedFault(n int, stores []*Store, kvs []*KV) (arm, disarm func()) {
+	k := vrt.Choice(n + 1)
+	c := 0
+	on := false
+	f := func(op string) bool {
+		if !on {
+			return false
+		}
+		c++
+		return c-1 == k
+	}
+	for _, s := range stores {
+		s.Fault = f
+	}
+	for _, kv := range kvs {
+		kv.Fault = f
+	}
+	return func() { on = true }, func() { on = false }
+}
